@@ -28,6 +28,13 @@ Theorem c19_result : forall c,
 Proof. exact run_timeout_result. Qed.
 Print Assumptions c19_result.
 
+(* the deadline does not depend on which task drives the future: a future polled once by one task and
+   then handed to another (different waker) resolves at the same instant with the same result *)
+Theorem c19_handover : forall d p0 ti res h1 h2,
+  run_timeout (mkT d p0 ti res h1) = run_timeout (mkT d p0 ti res h2).
+Proof. exact run_timeout_handover. Qed.
+Print Assumptions c19_handover.
+
 (* CLEANUP HALF.  When the deadline fires the TimeoutFuture drops its inner future (c19_monitor: the
    inner work is dropped at the instant of resolution); for a pooled request that is the [Cancel]
    operation of the pool model, at whatever stage the request is (waiting for its own dial, waiting on
@@ -45,7 +52,7 @@ Proof. intros cfg before r after u p. exact (pool.LiveC03c.mon_C03_holds cfg _ u
 Print Assumptions c19_cleanup.
 
 Example c19_example :
-  run_timeout (mkT 10 0 (Some 10) (IErr 3)) = (TInner (IErr 3), 10)
-  /\ run_timeout (mkT 10 0 (Some 11) (IOk 1)) = (TTimeout, 10)
-  /\ run_timeout (mkT 0 0 None (IOk 1)) = (TTimeout, 0).
+  run_timeout (mkT 10 0 (Some 10) (IErr 3) false) = (TInner (IErr 3), 10)
+  /\ run_timeout (mkT 10 0 (Some 11) (IOk 1) true) = (TTimeout, 10)
+  /\ run_timeout (mkT 0 0 None (IOk 1) false) = (TTimeout, 0).
 Proof. vm_compute. auto. Qed.
